@@ -367,7 +367,7 @@ func repeatRuns(em *emitter, rng *rand.Rand, g *gw.GW, w *world.World, op *world
 	g.ResetLogs()
 	g.Do(op)
 	dryLogs, calls := g.Net.Snapshot()
-	if len(calls) > 0 && rng.Intn(3) == 0 {
+	if len(calls) > 0 && rng.Intn(2) == 0 {
 		// the fault is tied to ONE sub-request by identity, so that the service answers the same way
 		// whatever position the request has in its batch
 		tl := dryLogs[rng.Intn(len(dryLogs))]
@@ -381,22 +381,41 @@ func repeatRuns(em *emitter, rng *rand.Rand, g *gw.GW, w *world.World, op *world
 		for kind == "tooshort" || kind == "toolong" { // these depend on the order of the batch
 			kind = fakesvc.AllFaultKinds[rng.Intn(len(fakesvc.AllFaultKinds))]
 		}
+		if rng.Intn(2) == 0 {
+			// entities a service does not know (node: null) leave objects that hold nothing but helper fields:
+			// whether and how they are pruned must not depend on iteration order
+			kind = []string{"nodenull", "nodenullall"}[rng.Intn(2)]
+		}
 		fault = &fakesvc.FaultSpec{Kind: kind, Svc: c.Svc, Call: c.Call, Pos: tl.Pos, Match: fakesvc.Identity(tl.Query, tl.Vars)}
 		if kind == "errors" || kind == "errorsall" || kind == "errorswithdata" {
 			fault.Errors = genErrors(rng)
 		}
 	}
+	sparse := 0
+	if fault == nil && len(calls) > 1 && rng.Intn(2) == 0 {
+		sparse = 1 + rng.Intn(1000)
+	}
 	key := run
 	if fault != nil {
 		key += fmt.Sprintf("|%s@%s#%d.%d", fault.Kind, fault.Svc, fault.Call, fault.Pos)
 	}
+	if sparse != 0 {
+		key += fmt.Sprintf("|sparse%d", sparse)
+		repeats *= 2
+	}
 	delays := rand.New(rand.NewSource(rng.Int63()))
 	var dmu sync.Mutex
+	if fault != nil && strings.HasPrefix(fault.Kind, "nodenull") {
+		repeats *= 3
+	}
 	for k := 0; k < repeats; k++ {
 		g.ResetLogs()
 		applied := false
 		if fault != nil {
 			g.Net.Fault = fault.Apply(&applied)
+		}
+		if sparse != 0 {
+			g.Net.Fault = fakesvc.SparseFault(sparse, &applied)
 		}
 		g.Net.Gate = func(svc string, call int) {
 			dmu.Lock()
@@ -439,7 +458,7 @@ func repeatRuns(em *emitter, rng *rand.Rand, g *gw.GW, w *world.World, op *world
 			data = world.TagJSON(env["data"])
 		}
 		em.emit(map[string]interface{}{"ev": "Obs", "key": key, "k": k, "status": st, "data": data, "errors": msgs, "reqs": reqs, "text": w.OpText(op),
-			"tags": op.Tags, "fault": fault != nil, "op": op})
+			"tags": op.Tags, "fault": fault != nil || sparse != 0, "op": op})
 	}
 }
 
@@ -499,6 +518,8 @@ func cmdGen(args []string) {
 			cfg.RichArgs = true
 		case "rootnode":
 			cfg.RootNode = true
+		case "skeleton":
+			cfg.Skeleton = true
 		case "nomut":
 			cfg.Mutations = false
 		default:
